@@ -39,12 +39,7 @@ Print Assumptions parse_accepts_iff.
 
 Theorem parse_elem_accepts_iff : forall e i,
   (exists z, parse_elem e = Ok z /\ key_index z = Ok i) <-> elem_spells e i.
-Proof.
-  intros e i. split.
-  - intros (z & H & K). exact (Lemmas.Bip32Path.parse_elem_complete _ e z i H K).
-  - intros H. exists (Z.of_N i). split; [exact (Lemmas.Bip32Path.parse_elem_sound e i H _)|].
-    apply Lemmas.Bip32Path.key_index_of_N. destruct H as (?&?&?&?&_&_&_&_&_&Hi). exact Hi.
-Qed.
+Proof. exact Lemmas.Bip32Path.parse_elem_accepts_iff. Qed.
 Print Assumptions parse_elem_accepts_iff.
 
 (* ... and everything else is rejected with the path error *)
